@@ -228,6 +228,11 @@ class FakePopen:
     def __init__(self, cmd, env=None, stdout=None, stderr=None, **kw):
         a = cur_actor()
         vc = a.vc
+        if vc.faults.get("launch_error") == env["JADE_JOB_NAME"] and ("launch_error", env["JADE_JOB_NAME"]) not in vc.fired:
+            # the job's executable cannot be started (missing, not executable): Popen itself raises
+            vc.fired.append(("launch_error", env["JADE_JOB_NAME"]))
+            vc.emit("launch_error", job=env["JADE_JOB_NAME"])
+            raise FileNotFoundError(2, "No such file or directory", str(cmd[0]) if cmd else "")
         self.name = env["JADE_JOB_NAME"]
         self.pid = 100000 + len(vc.launches)
         self.returncode = None
@@ -286,9 +291,33 @@ def _fake_hpc_command(cmd, output=None, **kw):
             output["stderr"] = "slurm_load_jobs error: Socket timed out on send/recv operation"
             vc.emit("squeue", ok=False, active=[])
             return 1
-        lines = [f"{i:<20}{b['state']:<20}" for i, b in vc.hpc.items() if b["state"] in ("PENDING", "RUNNING", "SUSPENDED")]
-        output["stdout"] = "\n".join(lines) + ("\n" if lines else "")
-        vc.emit("squeue", ok=True, active=vc.active_ids())
+        # the columns and the -j / -n filters are the ones the command line asks for
+        m = re.search(r'--Format "([^"]*)"', cmd)
+        cols = m.group(1).split(",") if m else ["jobid", "state"]
+        toks = cmd.split()
+        only_id = toks[toks.index("-j") + 1] if "-j" in toks else None
+        only_name = toks[toks.index("-n") + 1] if "-n" in toks else None
+        live = ("PENDING", "RUNNING", "SUSPENDED")
+        if only_id is not None and vc.hpc.get(only_id, {}).get("state") not in live:
+            output["stderr"] = "slurm_load_jobs error: Invalid job id specified\n"
+            vc.emit("squeue_one", ok=False, one=only_id, n=0)
+            return 1
+        rows = []
+        for i, b in vc.hpc.items():
+            if b["state"] not in live:
+                continue
+            if only_id is not None and i != only_id:
+                continue
+            nm = os.path.splitext(os.path.basename(b.get("script", "")))[0] or "job"
+            if only_name is not None and nm != only_name:
+                continue
+            vals = {"jobid": i, "state": b["state"], "name": nm}
+            rows.append("".join(f"{vals.get(c, 'x'):<20}" for c in cols))
+        output["stdout"] = "\n".join(rows) + ("\n" if rows else "")
+        if only_id is None and only_name is None:
+            vc.emit("squeue", ok=True, active=vc.active_ids())
+        else:
+            vc.emit("squeue_one", ok=True, one=only_id or only_name, n=len(rows))
         return 0
     if cmd.startswith("scancel"):
         i = cmd.split()[1]
@@ -527,7 +556,7 @@ def install():
         cur_actor().pending_row = result
         VC.fault_point("append:" + self._filename.name)
     _wrap_method(ResultsAggregator, "append_result", before=before_append_result)
-    def before_consolidate(self, results):
+    def before_consolidate(self, *a, **kw):
         # the copy of a node file's rows into processed_results.csv (a write that can hit the quota)
         VC.fault_point("consolidate:processed_results.csv")
 
@@ -579,7 +608,7 @@ def install():
     _wrap_method(ResultsAggregator, "_get_results", after=after_get_results)
 
     # _submit_batches has no yield point: a loop that never ends would hang the whole check.  Turn it into an error.
-    def before_submit_batches(self, queue, submission_group, blocked_jobs, submitted_jobs):
+    def before_submit_batches(self, *a, **kw):          # whatever its signature becomes
         cur_actor().make_batch_calls = 0
 
     def before_make_batch(self, available_jobs, *a, **kw):
@@ -727,6 +756,12 @@ class VirtualCluster:
             snap = {"error": type(e).__name__}
         if snap != self.last_snapshot:
             self.last_snapshot = snap
+            snap = dict(snap)
+            if "error" not in snap:
+                try:
+                    snap["rows"] = self.row_names_on_disk()     # result rows on disk at the same instant
+                except Exception:   # noqa  (a file being rewritten)
+                    pass
             self.trace.append({"k": "observe", "p": 0, "snapshot": snap})
 
     def read_snapshot(self):
@@ -869,6 +904,12 @@ class VirtualCluster:
             raise Killed()
         os.environ.clear()
         os.environ.update(a.proc.env)
+        if getattr(a, "interrupt", False):
+            # SIGINT (Ctrl-C) delivered to the process: KeyboardInterrupt is raised where it stands; `finally` blocks and
+            # `except BaseException` handlers run, `except Exception` handlers do not
+            a.interrupt = False
+            self.trace.append({"k": "interrupt", "p": a.proc.pid})
+            raise KeyboardInterrupt()
 
     def _runnable(self, a):
         if a.done or a.killed:
